@@ -164,7 +164,7 @@ func HarnessC04() {
 	tpl, err := c04Compile(set, prog)
 	verifAssert(err == nil, "program must compile")
 	o1, ok1 := c04Exec(tpl, d1)
-	c04Exec(tpl, d2) // arbitrary other context in between, possibly failing
+	o2, ok2 := c04Exec(tpl, d2) // arbitrary other context in between, possibly failing
 	o3, ok3 := c04Exec(tpl, d1)
 	verifObserve("first", o1)
 	verifObserve("third", o3)
@@ -175,6 +175,12 @@ func HarnessC04() {
 	verifAssert(err == nil, "program must compile again")
 	of, okf := c04Exec(fresh, d1)
 	verifAssert(okf == ok3 && of == o3, "a used template must render like a freshly compiled one")
+	// the execution in between must itself be what a fresh template gives for ITS context
+	set3, _ := c04Setup(tb, ls)
+	fresh2, err := c04Compile(set3, prog)
+	verifAssert(err == nil, "program must compile again")
+	of2, okf2 := c04Exec(fresh2, d2)
+	verifAssert(okf2 == ok2 && of2 == o2, "an execution after an earlier one (other context) must render like a freshly compiled template on the same context")
 	// the same through ExecuteWriter (its buffering must not carry anything over from earlier runs)
 	w := &c14Writer{}
 	e4 := tpl.ExecuteWriter(d1.ctx(), w)
